@@ -8,6 +8,7 @@ option, and every behaviour of the test.  `TestRec.disk` is, by construction of 
 bytes at the testcase path while that test runs.
 -/
 import LithiumProofs.World
+import LithiumProofs.WorldFrame
 
 namespace World
 
@@ -33,6 +34,15 @@ theorem C01_every_later_run (diskOrig : Bytes) (w0 : W) (h : Rest diskOrig w0) (
     (first : Outcome) :
     Rest diskOrig (runMainW w0 evs first) ∧ Rest diskOrig (runCheckOnlyW w0 first) :=
   ⟨rest_runMainW diskOrig w0 evs first h, rest_runCheckOnlyW diskOrig w0 first h⟩
+
+/-- a NEW JOB on a used `Lithium` object: the object may be in ANY state left behind by earlier runs (their log, counters,
+remembered testcases — no invariant assumed); if the testcase was loaded afresh, so that it is what the file holds,
+the run ends with the file byte-identical to the content it had during the most recent test OF THIS RUN that answered
+'interesting' — the file as loaded if there was none.  (False before the fix `e531ec0`: a rejected original let the
+previous job's result be written over the new file.) -/
+theorem C01_new_job_on_used_object (w0 : W) (evs : List Ev) (first : Outcome) (htc : w0.testcase.content = w0.disk) :
+    (runMainW w0 evs first).disk = lastAccepted ((runMainW w0 evs first).tests.drop w0.tests.length) w0.disk :=
+  new_job_final w0 evs first htc
 
 /-- inside the reduction loop the iterator's best testcase — the only thing a strategy can read
 back and derive its next candidates from — is always the last accepted candidate: a rejected,
